@@ -233,9 +233,9 @@ type tierParams struct {
 
 func params(thorough bool) tierParams {
 	if thorough {
-		return tierParams{40, 7, 4}
+		return tierParams{40, 12, 6}
 	}
-	return tierParams{16, 4, 3}
+	return tierParams{16, 5, 3}
 }
 
 func toVals(t reflect.Type, xs []interface{}) []reflect.Value {
@@ -396,6 +396,7 @@ type result struct {
 	CanaryCaught int64            `json:"canary_caught"`
 	SkipDetail   []string         `json:"skip_detail"`
 	Viol         []viol           `json:"viol"`
+	ViolCount    map[string]int64 `json:"viol_count"`
 	Samples      []string         `json:"samples"`
 	Infra        string           `json:"infra,omitempty"`
 }
@@ -792,6 +793,7 @@ func runJob(j job, thorough bool) (res result) {
 		tuples := argTuples(f, tp)
 		resT, _ := f.results()
 		for ti, args := range tuples {
+			_ = ti
 			wantOuts, wantMsg, wantErr := local(e, f, args)
 			resultOK, resultUntypedOK := true, true
 			for i, v := range wantOuts {
@@ -859,11 +861,18 @@ func runJob(j job, thorough bool) (res result) {
 					}
 					if kind != "" {
 						reported[f.ID+kind]++
-						if len(res.Viol) < 400 {
-							res.Viol = append(res.Viol, viol{Job: j, Fn: f.ID, Tuple: ti, Args: trunc(canonVals(args), 300), Spelling: sp, Mode: mode,
-								Cell: cellOf(f, args), Kind: kind, What: what})
+						// every failing case is counted; per (cell, kind, entry point) the first two are kept as records
+						cell := cellOf(f, args)
+						key := cell + "|" + kind + "|" + mode
+						if res.ViolCount == nil {
+							res.ViolCount = map[string]int64{}
 						}
-					} else if len(res.Samples) < 3 && int(res.Cases)%499 == h {
+						res.ViolCount[key]++
+						if res.ViolCount[key] <= 2 {
+							res.Viol = append(res.Viol, viol{Job: j, Fn: f.ID, Tuple: ti, Args: trunc(canonVals(args), 300), Spelling: sp, Mode: mode,
+								Cell: cell, Kind: kind, What: what})
+						}
+					} else if len(res.Samples) < 3 && int(res.Cases)%3571 == (h*7)%3571 {
 						out := strings.Join(o.outs, " ; ")
 						if o.err != nil {
 							out = "error " + fmt.Sprintf("%q", trunc(o.err.Error(), 80))
@@ -966,6 +975,7 @@ func main() {
 	samples := report.NewSamples(24)
 	type group struct {
 		first      viol
+		firstJob   int // index of the job the kept record comes from (smallest wins: deterministic replay files)
 		n          int
 		transports map[string]bool
 		modes      map[string]bool
@@ -1021,14 +1031,50 @@ func main() {
 			key := v.Cell + "|" + v.Kind
 			g := groups[key]
 			if g == nil {
-				g = &group{first: v, transports: map[string]bool{}, modes: map[string]bool{}}
+				g = &group{first: v, firstJob: i, transports: map[string]bool{}, modes: map[string]bool{}}
 				groups[key] = g
 			}
-			g.n++
+			if i < g.firstJob {
+				g.first, g.firstJob = v, i
+			}
 			g.transports[v.Job.Transport] = true
 			g.modes[v.Mode] = true
 		}
+		for k, n := range r.ViolCount {
+			if g := groups[k[:strings.LastIndex(k, "|")]]; g != nil {
+				g.n += int(n)
+			}
+		}
 	})
+	// a finding that shows in six or more cells alike is not a property of those cells: it is reported once,
+	// for "any-signature-shape" (root causes, not inputs)
+	cellsOfKind := map[string][]string{}
+	for k := range groups {
+		kind := k[strings.Index(k, "|")+1:]
+		cellsOfKind[kind] = append(cellsOfKind[kind], k)
+	}
+	for kind, ks := range cellsOfKind {
+		if len(ks) < 6 {
+			continue
+		}
+		sort.Strings(ks)
+		merged := &group{first: groups[ks[0]].first, firstJob: groups[ks[0]].firstJob, transports: map[string]bool{}, modes: map[string]bool{}}
+		for _, k := range ks {
+			g := groups[k]
+			merged.n += g.n
+			for t := range g.transports {
+				merged.transports[t] = true
+			}
+			for m := range g.modes {
+				merged.modes[m] = true
+			}
+			if g.firstJob < merged.firstJob {
+				merged.first, merged.firstJob = g.first, g.firstJob
+			}
+			delete(groups, k)
+		}
+		groups["any-signature-shape|"+kind] = merged
+	}
 	keys := make([]string, 0, len(groups))
 	for k := range groups {
 		keys = append(keys, k)
@@ -1129,14 +1175,19 @@ func replay(path string, thorough bool) {
 		if f.ID != v.Fn {
 			continue
 		}
-		tuples := argTuples(f, params(thorough))
-		if v.Tuple >= len(tuples) {
-			tuples = argTuples(f, params(true))
+		// find the recorded tuple by its canonical form (the tuple index depends on the tier)
+		var args []reflect.Value
+		found := false
+		for _, tp := range []tierParams{params(thorough), params(true), params(false)} {
+			for _, tu := range argTuples(f, tp) {
+				if !found && trunc(canonVals(tu), 300) == v.Args {
+					args, found = tu, true
+				}
+			}
 		}
-		if v.Tuple >= len(tuples) {
+		if !found {
 			break
 		}
-		args := tuples[v.Tuple]
 		wantOuts, wantMsg, wantErr := local(e, f, args)
 		kind, what, o := e.check(f, args, v.Spelling, v.Mode, wantOuts, wantMsg, wantErr)
 		fmt.Printf("job [%s]\ncall %s %s(%s) sent as %q\nlocal: results (%s) error=%v %q\nremote: results %v error %v\n", v.Job, v.Mode, f.ID, canonVals(args),
